@@ -62,5 +62,7 @@ def obligations(tier, seed):
             if q and ctx in ('in_group', 'in_split') and n == 4:
                 continue
             obs.append(Ob(PROP, 'runs', dict(ctx=ctx, km='tup2', inner='to_list', n=n), budget=150 if q else 900, bound=dict(items=n, ctx=ctx)))
+    for k in (1, 2):
+        obs.append(Ob(PROP, 'runs', dict(ctx='root', km='tup2', inner='to_list', n=3, retry=k), budget=120 if q else 900, group='after an aborted subscription', bound=dict(items=3, first_subscription_aborted_after=k)))
     obs.append(Ob(PROP, 'runs', dict(ctx='root', km='tup2', inner='to_list', n=3, _twin='reach'), budget=60, expect='refute'))
     return obs
